@@ -1,5 +1,6 @@
 import Mimic.Dispatch
 import Mimic.Extracted.Session
+import Mimic.Extracted.DispatchCode
 /-!
 # C13 — The application sees exactly the statements it must handle, once, in order
 
@@ -82,6 +83,27 @@ theorem use_iff (cur : Option String) (s : Stmt) : route order cat cur s = some 
   unfold route
   cases hk : s.kind <;> cases hs : s.static <;> cases hc : catalogOnly cat cur s <;>
     simp [List.find?, intercepts, hk, hs, hc]
+
+/-- **the catalog-routing decision of the code, translated from `_info_schema_middleware` on every run, is the model's
+    `catalogOnly`**: for every query (SELECT / set operation), every list of table qualifiers (`none` = unqualified —
+    the code sees `""`) and every current database -/
+theorem routing_is_code (c : List String) (cur : Option String) (s : Stmt) (hq : s.kind = .select ∨ s.kind = .setop)
+    (hne : ∀ d ∈ s.dbs, d ≠ some "") :
+    Mimic.Extracted.DispatchCode.info_schema_intercepts (s.dbs.map (fun d => d.getD "")) cur c = catalogOnly c cur s := by
+  unfold Mimic.Extracted.DispatchCode.info_schema_intercepts catalogOnly
+  have hk : (decide (s.kind = .select ∨ s.kind = .setop)) = true := by simpa using hq
+  simp only [hk, Bool.true_and, List.map_map, List.isEmpty_map]
+  have hmap : (s.dbs.map ((fun db => if db ≠ "" then db else if cur.getD "" ≠ "" then cur.getD "" else "") ∘ fun d => d.getD "")) =
+      s.dbs.map (fun d => match d with | some x => x | none => cur.getD "") := by
+    apply List.map_congr_left
+    intro d hd
+    cases d with
+    | none => simp
+    | some x =>
+      have : x ≠ "" := fun h => hne (some x) hd (by rw [h])
+      simp [this]
+  rw [hmap]
+  rfl
 
 /-! ### one entry per statement, in order -/
 
